@@ -30,6 +30,8 @@ QUICK = [
                 "MaxN": "5", "MaxStk": "3", "MaxStmts": "1"}, None),      # 5 nodes: the smallest that holds a reduce
     ("conlet", {"Fam": "<- FamCon", "LitPool": "<- LitsCon", "Names": "<- Names2", "ConPool": "<- Cons1",
                 "MaxN": "1", "MaxStk": "1", "MaxStmts": "2"}, None),      # let name :: constraint = value
+    ("funcbody", {"Fam": "<- FamFuncBody", "LitPool": "<- Lits2", "Names": "<- Names2", "SigPool": "<- Sigs2",
+                  "BinOps": "<- OpsFew", "MaxN": "4", "MaxStk": "2", "MaxCtx": "2", "MaxStmts": "2"}, None),   # define, then call
     ("misc", {"Fam": "<- FamMisc", "LitPool": "<- LitsFmt", "Names": "<- Names1", "BinOps": "<- Ops2",
               "TyNames": "<- TySome", "MaxN": "3", "MaxStk": "3", "MaxStmts": "1"}, None),
     ("cast", {"Fam": "<- FamCast", "LitPool": "<- LitsCast", "Names": "<- Names1", "BinOps": "<- Ops2",
